@@ -161,7 +161,9 @@ pub fn make_koto(cfg: &RunCfg, cap: &Capture) -> Koto {
     if let Some(l) = cfg.limit {
         settings = settings.with_execution_limit(l);
     }
-    Koto::with_settings(settings)
+    let koto = Koto::with_settings(settings);
+    crate::hostobj::install(koto.prelude());
+    koto
 }
 
 /// A live instance + its capture, for history-style engines.
@@ -190,6 +192,7 @@ impl Instance {
 
     pub fn run_with(&mut self, src: &str, cfg: &RunCfg) -> Obs {
         verif_clock::reset(cfg.quantum_ns, cfg.budget_ticks);
+        crate::hostobj::CURRENT_CAP.with(|c| *c.borrow_mut() = Some(self.cap.clone()));
         let koto = &mut self.koto;
         let r = std::panic::catch_unwind(std::panic::AssertUnwindSafe(|| {
             let mut args = CompileArgs::new(src)
